@@ -73,6 +73,34 @@ lemma mapM_length {g : Nat → Option Nat} : ∀ (l : List Nat) (r : List Nat), 
         simp [ih r0 hr]
 
 /-- two float outputs: the patterns denote the rationals the ℚ-run returns -/
+theorem transfer2' (p : Prog) (hf : WF p.fmt) (kinds : List Bool) (hk : kindsOf p.nodes [] = some kinds)
+    (hko : ∀ o ∈ p.outs, kinds[o]? = some false)
+    (lib : Libm) (ins : List Nat) (insQ : List ℚ) (hins : InsRel p.fmt ins insQ) (env : Array Nat)
+    (he : evalNodes p.fmt lib ins p.nodes #[] = some env)
+    (hfin : ∀ (i : Nat) (v : Nat), env[i]? = some v → kinds[i]? = some false → isFiniteBits p.fmt v = true)
+    (h l : Nat) (ho : p.eval lib ins = some [h, l]) (a b : ℚ) (hq : p.evalQ (rne (qf p.fmt hf.hp)) insQ = some [a, b]) :
+    toQ p.fmt h = some a ∧ toQ p.fmt l = some b := by
+  obtain ⟨qs, h1, h2⟩ := refines p hf kinds hk lib ins insQ hins env he hfin [h, l] ho
+  rw [hq] at h1; cases h1
+  have hlen : p.outs.length = 2 := by
+    unfold Prog.eval at ho
+    simp only [he, Option.bind_eq_bind, Option.bind_some] at ho
+    have := mapM_length p.outs [h, l] ho
+    simpa using this
+  match hpo : p.outs, hlen with
+  | [o1, o2], _ =>
+    rw [hpo] at h2 hko
+    simp only [List.zip_cons_cons, List.zip_nil_right] at h2
+    cases h2 with
+    | cons r1 rest =>
+      cases rest with
+      | cons r2 _ =>
+        obtain ⟨k1, hk1, rv1⟩ := r1
+        obtain ⟨k2, hk2, rv2⟩ := r2
+        rw [hko o1 (by simp)] at hk1; rw [hko o2 (by simp)] at hk2
+        cases hk1; cases hk2
+        exact ⟨(rv_float rv1).2, (rv_float rv2).2⟩
+
 theorem transfer2 (p : Prog) (hf : WF p.fmt) (kinds : List Bool) (hk : kindsOf p.nodes [] = some kinds)
     (hallf : ∀ (i : Nat) (k : Bool), kinds[i]? = some k → k = false)
     (lib : Libm) (ins : List Nat) (insQ : List ℚ) (hins : InsRel p.fmt ins insQ) (env : Array Nat)
@@ -82,7 +110,6 @@ theorem transfer2 (p : Prog) (hf : WF p.fmt) (kinds : List Bool) (hk : kindsOf p
     toQ p.fmt h = some a ∧ toQ p.fmt l = some b := by
   obtain ⟨qs, h1, h2⟩ := refines p hf kinds hk lib ins insQ hins env he (fun i v hv _ => hfin i v hv) [h, l] ho
   rw [hq] at h1; cases h1
-  -- p.outs has two elements
   have hlen : p.outs.length = 2 := by
     unfold Prog.eval at ho
     simp only [he, Option.bind_eq_bind, Option.bind_some] at ho
@@ -100,7 +127,6 @@ theorem transfer2 (p : Prog) (hf : WF p.fmt) (kinds : List Bool) (hk : kindsOf p
         obtain ⟨k2, hk2, rv2⟩ := r2
         rw [hallf _ _ hk1] at rv1; rw [hallf _ _ hk2] at rv2
         exact ⟨(rv_float rv1).2, (rv_float rv2).2⟩
-
 
 /-- one float output -/
 theorem transfer1 (p : Prog) (hf : WF p.fmt) (kinds : List Bool) (hk : kindsOf p.nodes [] = some kinds)
@@ -145,6 +171,34 @@ theorem dekker_bits_of (p : Prog) (hf : WF p.fmt) (kinds : List Bool) (hk : kind
     (by rw [habs]; exact_mod_cast nx) (by rw [habs]; exact_mod_cast bx1)
     (by rw [habs]; exact_mod_cast ny) (by rw [habs]; exact_mod_cast by1) bx2 by2 hund
   obtain ⟨t1, t2⟩ := transfer2 p hf kinds hk hallf lib [x, y] _ hins env he hfin h l ho _ _ hq
+  exact ⟨_, _, t1, t2, rfl, by ring⟩
+
+
+/-- Dekker's product on bit patterns for programs with boolean nodes (scaled / guarded variants): only the
+float-kind nodes need to be finite -/
+theorem dekker_bits_of' (p : Prog) (hf : WF p.fmt) (kinds : List Bool) (hk : kindsOf p.nodes [] = some kinds)
+    (hko : ∀ o ∈ p.outs, kinds[o]? = some false)
+    (hQ : ∀ (r : ℚ → ℚ) (kx ky ex ey : ℤ) (x y : ℚ), x = (kx : ℚ) * 2 ^ ex → y = (ky : ℚ) * 2 ^ ey →
+      IsRN (qf p.fmt hf.hp) r → 2 ^ (p.fmt.p - 1) ≤ |kx| → |kx| < 2 ^ p.fmt.p → 2 ^ (p.fmt.p - 1) ≤ |ky| → |ky| < 2 ^ p.fmt.p →
+      p.fmt.emin ≤ ex → p.fmt.emin ≤ ey → p.evalQ r [x, y] = some [r (x * y), x * y - r (x * y)])
+    (lib : Libm) (x y : Nat) (sx sy : Bool) (mx my : Nat) (ex ey : Int)
+    (dx : decode p.fmt x = .fin sx mx ex) (dy : decode p.fmt y = .fin sy my ey)
+    (nx : 2 ^ (p.fmt.p - 1) ≤ mx) (ny : 2 ^ (p.fmt.p - 1) ≤ my)
+    (env : Array Nat) (he : evalNodes p.fmt lib [x, y] p.nodes #[] = some env)
+    (hfin : ∀ (i : Nat) (v : Nat), env[i]? = some v → kinds[i]? = some false → isFiniteBits p.fmt v = true)
+    (h l : Nat) (ho : p.eval lib [x, y] = some [h, l]) :
+    ∃ qh ql : ℚ, toQ p.fmt h = some qh ∧ toQ p.fmt l = some ql ∧
+      qh = rne (qf p.fmt hf.hp) (valQ sx mx ex * valQ sy my ey) ∧ qh + ql = valQ sx mx ex * valQ sy my ey := by
+  obtain ⟨bx1, bx2⟩ := decode_bounds p.fmt hf x sx mx ex dx
+  obtain ⟨by1, by2⟩ := decode_bounds p.fmt hf y sy my ey dy
+  have hins := insRel2 (finite_of_decode _ _ _ _ _ dx) (finite_of_decode _ _ _ _ _ dy) (toQ_fin _ x sx mx ex dx) (toQ_fin _ y sy my ey dy)
+  have habs : ∀ (s : Bool) (m : Nat), |(if s then -(m : ℤ) else (m : ℤ))| = (m : ℤ) := by
+    intro s m; cases s <;> simp
+  have hq := hQ (rne (qf p.fmt hf.hp)) (if sx then -(mx : ℤ) else mx) (if sy then -(my : ℤ) else my) ex ey _ _
+    (valQ_int sx mx ex) (valQ_int sy my ey) (isRN_rne _)
+    (by rw [habs]; exact_mod_cast nx) (by rw [habs]; exact_mod_cast bx1)
+    (by rw [habs]; exact_mod_cast ny) (by rw [habs]; exact_mod_cast by1) bx2 by2
+  obtain ⟨t1, t2⟩ := transfer2' p hf kinds hk hko lib [x, y] _ hins env he hfin h l ho _ _ hq
   exact ⟨_, _, t1, t2, rfl, by ring⟩
 
 end FAVerif.Refine
